@@ -1,8 +1,8 @@
 #!/bin/bash
 # usage: tools/confirm_seed.sh <seed-dir> ...   -- independently confirm seeded changes in a scratch worktree
 # (applies, full test suite must be green, demo must fail; reverted: demo must pass). Writes <seed-dir>/confirm.json
-WT=/tmp/confirm-wt
-export CARGO_TARGET_DIR=/tmp/confirm-target
+WT=${WT:-/tmp/confirm-wt}
+export CARGO_TARGET_DIR=${CONFIRM_TARGET:-/tmp/confirm-target}
 export CARGO_NET_OFFLINE=true
 HEAD=$(git -C /repo rev-parse HEAD)
 if [ ! -d "$WT" ]; then git -C /repo worktree add -q --detach "$WT" "$HEAD" || exit 2; fi
